@@ -9,6 +9,8 @@
 //                 report pipe before the child is dead)
 //   family=reuse  2 (3) deliveries one after the other through the same delivery number, every ordered tuple of child fates: each
 //                 command is sent when the report for the previous one has arrived, so the spawner's slot is really used again
+//   family=split  a first delivery is started and its program takes its time; a second command arrives in two pieces (cut after every
+//                 byte) and the first delivery finishes between the pieces: both reports must carry their own delivery numbers
 // Oracle: (1) the spawner itself opens nothing but numerically named paths below queue/mess (and lock/tcpto); (2) a child is started
 // iff the id is numeric, the file is regular and owned by the queue user and the recipient has a host part, and its standard input
 // is that message; (3) every complete command is answered by exactly one report carrying its delivery number, nothing else is
@@ -29,6 +31,7 @@ struct C18S : Scenario {
   int mainpid = 0; std::shared_ptr<Sink> out; int children = 0; std::vector<std::string> child_stdin; std::map<int, int> child_stage; std::map<int, std::string> child_in; std::string casename; bool cut = false;
   std::vector<int> child_delnum_order; int spawnlimit = 120;
   std::shared_ptr<Pipe> inpipe; std::vector<const Fate *> fateseq; std::map<int, const Fate *> child_fate; size_t sent = 0;   // family=reuse
+  size_t split_at = 0; int split_stage = 0; int heldpid = 0;   // family=split
   C18S(const Config &c) : cfg(c) {
     { std::ifstream f(c.srcdir + "/conf-spawn"); int v = 0; if (f >> v && v > 0 && v < 256) spawnlimit = v; }   // the compiled-in concurrency limit of the tree under test
     fam = c.get("family", "ids"); prog = c.get("prog", "rspawn"); local = prog == "lspawn";
@@ -43,6 +46,9 @@ struct C18S : Scenario {
     } else if (fam == "cut" || fam == "fate") {
       cases.push_back({Cmd{3, "8/123", "s@src.example", okr}, Cmd{4, "8/123", "", okr}});
       if (fam == "fate") cases[0].pop_back();
+    } else if (fam == "split") {
+      cases.push_back({Cmd{0, "8/123", "s@src.example", okr}, Cmd{1, "8/123", "r1@src.example", okr}});
+      cases.push_back({Cmd{5, "8/123", "s@src.example", okr}, Cmd{2, "8/123", "", okr}});
     } else if (fam == "reuse") {
       cases.push_back({Cmd{3, "8/123", "s@src.example", okr}});
     } else if (fam == "multi") {
@@ -68,7 +74,8 @@ struct C18S : Scenario {
     if (fam == "fate") { fate = &fates[w.ex->choose_n((int) fates.size(), BK_FREE)]; casename += " child " + fate->name; }
     if (fam == "reuse") { int n = cfg.geti("seqlen", 2); for (int i = 0; i < n; i++) fateseq.push_back(&fates[w.ex->choose_n((int) fates.size(), BK_FREE)]); casename += " children in turn:"; for (auto f : fateseq) casename += " <" + f->name + ">"; }
     std::map<int, int> fds;
-    if (fam == "reuse") { int r, wr; k.make_pipe(&r, &wr, 1 << 16); k.ofd_ref(wr); inpipe = k.ofds[wr]->pipe; inpipe->buf += stream; sent = 1; fds[0] = r; }
+    if (fam == "split") { std::string b = enc((*cs)[1]); split_at = 1 + choose_big(w, b.size() - 1); casename += " second command cut after byte " + std::to_string(split_at); }
+    if (fam == "reuse" || fam == "split") { int r, wr; k.make_pipe(&r, &wr, 1 << 16); k.ofd_ref(wr); inpipe = k.ofds[wr]->pipe; inpipe->buf += fam == "split" ? enc((*cs)[0]) : stream; sent = 1; fds[0] = r; }
     else fds[0] = QmailEnv::preloaded_pipe(w, stream); fds[1] = QmailEnv::sink(w, &out); fds[2] = QmailEnv::nullfd(w);
     std::vector<std::string> av = {"qmail-" + prog}; if (local) av.push_back("./Mailbox");
     mainpid = w.spawn("/var/qmail/bin/qmail-" + prog, av, fds, local ? 0 : UID_QMAILR, local ? 0 : GID_QMAIL, "/");
@@ -80,6 +87,7 @@ struct C18S : Scenario {
     int &st = child_stage[p.vpid];
     if (st == 0) { st = 1; children++; if (fam == "reuse") child_fate[p.vpid] = fateseq[std::min<size_t>(children - 1, fateseq.size() - 1)]; I(VKA_READALL); I(0); I(VKA_ASK); return a; }
     child_stdin.push_back(child_in[p.vpid]);
+    if (fam == "split" && children == 1 && !heldpid) { heldpid = p.vpid; p.held = true; }   // the first delivery program takes its time (its next call waits)
     const Fate *fate = this->fate; if (fam == "reuse") fate = child_fate[p.vpid];
     if (!fate->output.empty()) { I(VKA_WRITE); I(1); I((int) fate->output.size()); a += fate->output; }
     I(VKA_CLOSE); I(1); I(VKA_CLOSE); I(2);
@@ -88,6 +96,14 @@ struct C18S : Scenario {
   }
   size_t reports_in(const std::string &o) { size_t n = 0, i = 1; while (i < o.size()) { size_t z = o.find('\0', i + 1); if (z == std::string::npos) break; n++; i = z + 1; } return n; }
   bool on_quiescent(World &w) override {
+    if (fam == "split" && inpipe) {
+      std::string b = enc((*cs)[1]);
+      switch (split_stage++) {
+        case 0: inpipe->buf += b.substr(0, split_at); return true;
+        case 1: for (auto &pp : w.procs) if (pp && pp->vpid == heldpid) pp->held = false; return true;
+        case 2: inpipe->buf += b.substr(split_at); return true;
+        default: inpipe->writers = 0; inpipe.reset(); return true; }
+    }
     (void) w; if (fam != "reuse" || !inpipe) return false;
     if (reports_in(out->data) < sent) { inpipe->writers = 0; inpipe.reset(); return true; }   // no report for the last command: end the input, at_end reports it
     if (sent < fateseq.size()) { inpipe->buf += stream; sent++; return true; }
@@ -131,6 +147,14 @@ struct C18S : Scenario {
         if (i > 0 && fateseq[i]->output != fateseq[i - 1]->output && reps[i].second.size() > 1 && reps[i].second == reps[i - 1].second && want != (local ? fateseq[i - 1]->want_l : fateseq[i - 1]->want_r)) { w.soft_violation("C09:stale-report-text:" + prog, casename + ": the report of delivery " + std::to_string(i + 1) + " repeats the previous one"); return; }
         w.counters[std::string("verdict_") + want]++; }
       w.counters["slot_reuses"] += fateseq.size() - 1; w.counters["reports_checked"] += reps.size(); w.counters["children_started"] += children;
+      w.outcome_hash = fnvs(fnvs(11, casename), o); w.description = casename + " -> [" + esc(o.substr(1), 80) + "]"; return;
+    }
+    if (fam == "split") {
+      if (!heldpid) { w.soft_violation(key, casename + ": the first delivery program was never started"); return; }
+      if (reps.size() != 2 || reps[0].first != (*cs)[0].delnum || reps[1].first != (*cs)[1].delnum || reps[0].second.empty() || reps[1].second.empty() || reps[0].second[0] != 'K' || reps[1].second[0] != 'K') {
+        std::string r; for (auto &x : reps) r += std::to_string(x.first) + ":[" + esc(x.second, 40) + "] "; w.soft_violation("C18:report-number-after-split-command:" + prog, casename + ": the first delivery finished while the second command was half read; reports are " + r + "; expected one success report for delivery " + std::to_string((*cs)[0].delnum) + " and then one for delivery " + std::to_string((*cs)[1].delnum)); return; }
+      if (children != 2) { w.soft_violation(key, casename + ": " + std::to_string(children) + " delivery programs were started for 2 commands"); return; }
+      w.counters["split_commands"]++; w.counters["reports_checked"] += 2; w.counters["children_started"] += children; w.counters["verdict_K"] += 2;
       w.outcome_hash = fnvs(fnvs(11, casename), o); w.description = casename + " -> [" + esc(o.substr(1), 80) + "]"; return;
     }
     if (reps.size() != complete) { w.soft_violation(key, casename + ": " + std::to_string(reps.size()) + " reports for " + std::to_string(complete) + " complete commands: [" + esc(o.substr(1), 200) + "]"); return; }
